@@ -1,10 +1,10 @@
 """C11 plan (see lib/plan.py for the format)."""
-from plan import R, D, M, stages
+from plan import R, D, M, T, stages
 
 PLAN = dict(
     **stages(
-        quick=[(R, "quick", 16), (D, "small", 16)],
-        thorough=[(R, "thorough", 16), (D, "quick", 16), (M, "mini", 8)],
+        quick=[(R, "quick", 16), (D, "small", 16), (T, "small", 16)],
+        thorough=[(R, "thorough", 16), (D, "quick", 16), (T, "quick", 16), (M, "mini", 8)],
     ),
     rule=("cases are (a) distinfo texts for 1-6 files (every 60th text: 17-300 files, mostly 21-80) whose "
           "well-formed lines ('ALG (name) = hash', "
